@@ -1,4 +1,5 @@
 import WK.Proofs.C41_inv
+import WK.Proofs.C41_paths
 /-
   C41 — Stopping the send pipeline never drops accepted sends.
 
